@@ -769,6 +769,62 @@ pub fn space_m(full: bool) -> Vec<Vec<u8>> {
             v.push(p);
         }
     }
+    // 3b. strided scans over input values, and stride-1 scans over cells whose low byte is zero
+    for stride in [2usize, 3] {
+        for dir in [b'<', b'>'] {
+            let back = if dir == b'<' { b'>' } else { b'<' };
+            // lay down 4 values `stride` cells apart walking `back`-wards, then scan home in direction `dir`
+            let mut p = Vec::new();
+            for i in 0..4 {
+                p.push(b',');
+                if i < 3 {
+                    rep(&mut p, back, stride);
+                }
+            }
+            p.push(b'[');
+            rep(&mut p, dir, stride);
+            p.push(b']');
+            for _ in 0..5 {
+                rep(&mut p, back, stride);
+                p.push(b'.');
+            }
+            v.push(p);
+        }
+    }
+    for dir in [b'<', b'>'] {
+        let back = if dir == b'<' { b'>' } else { b'<' };
+        // values a*256 (zero low byte on wide cells), one cell apart, with a scratch cell two further
+        let mut p = Vec::new();
+        for _ in 0..3 {
+            p.push(b',');
+            // multiply by 256 through the neighbour in direction `back`
+            p.extend_from_slice(b"[");
+            p.push(back);
+            rep(&mut p, b'+', 16);
+            p.push(dir);
+            p.extend_from_slice(b"-]");
+            p.push(back);
+            p.extend_from_slice(b"[");
+            p.push(dir);
+            rep(&mut p, b'+', 16);
+            p.push(back);
+            p.extend_from_slice(b"-]");
+            // value now sits in the original cell again; step to the next cell
+        }
+        p.push(dir);
+        p.push(b'[');
+        p.push(dir);
+        p.push(b']');
+        p.push(back);
+        p.push(b'.');
+        p.push(back);
+        p.push(b'.');
+        p.push(dir);
+        p.push(dir);
+        p.push(dir);
+        p.push(b'.');
+        v.push(p);
+    }
     // 4. zig-zag: alternate far walks so that the tape is reallocated several times in both
     // directions, leaving marks that are revisited at the end
     for &(k, s) in if full { &[(3usize, 7usize), (4, 50), (6, 400)][..] } else { &[(3usize, 7usize), (4, 50)][..] } {
@@ -924,6 +980,16 @@ pub fn space_r() -> Vec<Vec<u8>> {
 pub fn nest_open_close(n: usize) -> Vec<u8> {
     let mut v = vec![b'['; n];
     v.extend(std::iter::repeat(b']').take(n));
+    v
+}
+
+/// A skipped loop containing n nested loops, followed by visible output.
+pub fn nest_skipped_then_print(n: usize) -> Vec<u8> {
+    let mut v = vec![b'['];
+    v.extend(std::iter::repeat(b'[').take(n));
+    v.extend_from_slice(b"<+.->");
+    v.extend(std::iter::repeat(b']').take(n));
+    v.extend_from_slice(b"]+.");
     v
 }
 
